@@ -101,9 +101,18 @@ def edited(node, pos, repl_pos, repl_id, del_pos, anchors=True):
     return canon(node, anchors)
 
 
-def matched(doc, segs):
+def matched(doc, segs, expand_slices=False):
     """Contexts the reference says the path matches (real nodes only)."""
-    ctxs = refquery.ev(segs, refquery.root_ctx(doc))
+    found = refquery.ev(segs, refquery.root_ctx(doc))
+    ctxs = []
+    for c in found:
+        if expand_slices and c.pos is None and isinstance(
+                c.node, refquery.VList) and segs and segs[-1][0] == "slice":
+            # the path ends in an array slice: an edit through it is an edit
+            # of each element the slice holds
+            ctxs.extend(c.node)
+        else:
+            ctxs.append(c)
     for c in ctxs:
         if c.pos is None or c.virtual:
             raise refquery.Unspecified("virtual result")
